@@ -19,6 +19,9 @@ Spec  : the documented domain (Spec/Domains.v, extracted: fid 5/7) applied to th
 import copy
 import inspect
 import json
+import os
+
+import numpy as np
 
 from harness import core
 from harness import jsonwire as jw
@@ -269,11 +272,73 @@ def run(ctx):
     if replay is None or replay.get("level") == "update_conf":
         update_conf_stream(ctx, model, cc, replay)
 
+    # ------------------------------------------------------------------ (f) the band rule on image FILES
+    if replay is None or replay.get("level") == "band_files":
+        band_files_stream(ctx, cc, PandoraMachine)
+
     ctx.gen_obligations = ["every generated parameter schema accepts exactly its documented domain (Props/C05.v, re-proved "
                            "on the regenerated Gen/Schemas.v by lia/lra/case analysis)",
                            "defaults of the generated prologues = documented defaults (vm_compute)"]
     ctx.notes.append("observations (not violations): guide vs code on eta upper bound, ambiguity_threshold end points, "
                      "ambiguity_kernel_size parity, 'mc_cnn' spelling, three defaults (O1): see Spec/Domains.v guide_notes")
+
+
+def band_files_stream(ctx, cc, PandoraMachine):
+    """check_conf(user_cfg, machine) as pandora's main calls it: the band rule is decided on the bands the image
+    files hold NOW.  One process checks many configurations; the two image paths stay the same while the files are
+    rewritten with another band layout between two checks (a product regenerated in place)."""
+    import shutil
+    import tempfile
+
+    import rasterio
+
+    rng = ctx.rng
+    tmp = tempfile.mkdtemp(prefix="c05_bands_")
+    paths = {"left": os.path.join(tmp, "left.tif"), "right": os.path.join(tmp, "right.tif")}
+
+    def write(path, bands):
+        arr = np.arange(len(bands) * 8 * 12, dtype=np.float32).reshape(len(bands), 8, 12) % 17
+        with rasterio.open(path, "w", driver="GTiff", height=8, width=12, count=len(bands), dtype="float32") as dst:
+            dst.write(arr)
+            for i, b in enumerate(bands, 1):
+                if b is not None:
+                    dst.set_band_description(i, b)
+
+    layouts = [[None], ["r", "g", "b"], ["r", "g"], ["r", "g", "nir"]]
+    on_disk = {}
+    history = []
+    try:
+        for _ in range(24 if ctx.tier == "quick" else 240):
+            for side in ("left", "right"):
+                if side not in on_disk or rng.random() < 0.5:
+                    on_disk[side] = rng.choice(layouts) if side == "left" or rng.random() < 0.3 else on_disk["left"]
+                    write(paths[side], on_disk[side])
+            band = rng.choice([None, "r", "g", "b", "nir", "zz"])
+            mc = {"matching_cost_method": rng.choice(["zncc", "sad", "census"]), "window_size": 3}
+            if band is not None:
+                mc["band"] = band
+            user = {"input": {"left": {"img": paths["left"], "disp": [-2, 2]}, "right": {"img": paths["right"]}},
+                    "pipeline": {"matching_cost": mc, "disparity": {"disparity_method": "wta"}}}
+            want = band_rule(on_disk["left"], band) and band_rule(on_disk["right"], band)
+            try:
+                cc.check_conf(copy.deepcopy(user), PandoraMachine())
+                got, why = True, None
+            except Exception as exc:  # pylint: disable=broad-except
+                got, why = False, pu.exc_class(exc)
+            history.append({"left_bands": on_disk["left"], "right_bands": on_disk["right"], "band": band, "accepted": got})
+            ctx.count("band_file_checks")
+            ctx.count("band_file_checks_" + ("accepted" if got else "refused"))
+            ctx.traces += 1
+            ctx.case(("band_files", tuple(map(str, on_disk["left"])), tuple(map(str, on_disk["right"])), band))
+            if got != want:
+                ctx.violation("band_rule_on_files_" + ("accepted_outside_domain" if got else "refused_inside_domain"),
+                              f"check_conf on image files holding the bands {on_disk['left']} / {on_disk['right']} (paths "
+                              f"checked before with other layouts: see history) and matching_cost band {band!r}: "
+                              f"{'accepted' if got else 'refused (' + str(why) + ')'}, the band rule "
+                              f"{'accepts' if want else 'refuses'} it", {"level": "band_files", "history": history[-6:]})
+                break
+    finally:
+        shutil.rmtree(tmp, ignore_errors=True)
 
 
 UC_KEYS = ["input", "left", "nodata", "a", "b", "pipeline"]
